@@ -1,7 +1,7 @@
 (* C22 proofs, part 4: the list of OKL loop paths built by kernelHasValidOklLoops, and the
    reverse + startsWith filter: it keeps exactly the paths of OKL loops without an OKL loop inside. *)
 From Coq Require Import List Bool Arith ZArith Lia.
-From OV.C22 Require Import Model Spec ProofsBase.
+From OV.C22 Require Import Model Spec Statements ProofsBase.
 Import ListNotations.
 
 (* ------------------------------------------------------------------ loopPaths over the DFS *)
@@ -113,12 +113,24 @@ Fixpoint im (ps : list (list pel)) (nxt : list pel) : list (list pel) :=
   | p :: tl => (if starts_with (hd nxt tl) p then [] else [p]) ++ im tl nxt
   end.
 
+Lemma im_cons : forall p tl nxt,
+  im (p :: tl) nxt = (if starts_with (hd nxt tl) p then [] else [p]) ++ im tl nxt.
+Proof. reflexivity. Qed.
+
+Lemma last_default : forall {A} (l : list A) x d d', last (x :: l) d = last (x :: l) d'.
+Proof.
+  intros A l. induction l as [|y l IH]; intros x d d'; [reflexivity|].
+  change (last (x :: y :: l) d) with (last (y :: l) d).
+  change (last (x :: y :: l) d') with (last (y :: l) d'). apply IH.
+Qed.
+
 Lemma inner_most_app : forall a b nxt,
   inner_most (a ++ b) nxt = inner_most a nxt ++ inner_most b (last a nxt).
 Proof.
   induction a as [|p a IH]; intros b nxt; [reflexivity|].
-  simpl inner_most. rewrite IH, <- app_assoc. do 2 f_equal.
-  destruct a; reflexivity.
+  simpl inner_most. rewrite IH, <- app_assoc. do 3 f_equal.
+  destruct a as [|x a']; [reflexivity|].
+  change (last (p :: x :: a') nxt) with (last (x :: a') nxt). apply last_default.
 Qed.
 
 Lemma last_rev_hd : forall {A} (l : list A) d, last (rev l) d = hd d l.
@@ -213,12 +225,14 @@ Lemma G_eq : forall n path k kids,
 Proof.
   intros. unfold G, GL. rewrite LP_eq.
   destruct (is_okl (mkPel n k)) eqn:Hok; [|reflexivity].
-  simpl app. simpl im.
+  change ([Fp path ++ [mkPel n k]] ++ LPL (S n) (path ++ [mkPel n k]) kids)
+    with ((Fp path ++ [mkPel n k]) :: LPL (S n) (path ++ [mkPel n k]) kids).
+  rewrite im_cons.
   destruct (LPL (S n) (path ++ [mkPel n k]) kids) as [|p1 rest] eqn:E.
-  - simpl. rewrite starts_with_nil_l; [reflexivity|]. destruct (Fp path); discriminate.
+  - cbn [hd]. rewrite starts_with_nil_l; [reflexivity|]. destruct (Fp path); discriminate.
   - assert (H1 : In p1 (LPL (S n) (path ++ [mkPel n k]) kids)) by (rewrite E; now left).
     destruct (LPL_shape _ _ _ _ H1) as (q1 & Hp1 & _).
-    rewrite Fp_snoc, Hok in Hp1. simpl hd. rewrite Hp1, starts_with_prefix. reflexivity.
+    rewrite Fp_snoc, Hok in Hp1. cbn [hd]. rewrite Hp1, starts_with_prefix. reflexivity.
 Qed.
 
 Lemma GL_nil_iff : forall n path l, GL n path l = [] <-> LPL n path l = [].
